@@ -114,11 +114,16 @@ def d2uDtype : Dtype → Dtype
   | .float32 => .float64
   | _ => .int
 
-/-- `directed2undirected` on a csr matrix; `adjacency + adjacency.T` needs a square matrix -/
+/-- `adjacency.maximum(adjacency.T)` entry by entry -/
+def rmax (x y : Rat) : Rat := if x < y then y else x
+
+/-- `directed2undirected` on a csr matrix; `adjacency + adjacency.T` / `adjacency.maximum(adjacency.T)` need a square
+matrix.  Unweighted: `adjacency.maximum(adjacency.T) > 0` (repair F16r; the pinned code took the pattern of
+`adjacency + adjacency.T`, which differs from the documented `max(A, Aᵀ) > 0` on negative and on cancelling weights) -/
 def directed2undirected (a : Mat) (weighted : Bool) : Except PyErr Mat :=
   if a.nRow ≠ a.nCol then .error .valueError
   else if weighted then .ok (a.add a.transpose)
-  else .ok (Mat.ofFn a.nRow a.nCol fun i j => if a.get i j + a.get j i ≠ 0 then 1 else 0)
+  else .ok (Mat.ofFn a.nRow a.nCol fun i j => if 0 < rmax (a.get i j) (a.get j i) then 1 else 0)
 
 /-- `bipartite2directed` : `bmat([[None, B], [csr((n_col, n_row)), None]])` -/
 def bipartite2directed (b : Mat) : Mat := Mat.block b (Mat.zero b.nCol b.nRow)
